@@ -5,42 +5,31 @@ it, and the jq expression printed for that path.
 Two layers.
 * Rendering (function by function): `can_use_dot_notation`, `escape_jq_string`,
   `PathComponent::to_jq_string`, the expression assembly at the end of `path_to_bp`.
-  `char::is_alphabetic` / `char::is_alphanumeric` are Rust-core Unicode tables: regenerated from the
-  toolchain on every run (`Generated/C28`), modelled-not-verified.
 * Node selection over the document's node table (`PNode`: every value and every key, in preorder,
   with its byte span): `find_node_at_offset` picks the node whose interest bit is the last one at a
   position ≤ offset (C07 `cursor_at_offset_eq`; interest bits = first bytes of nodes, C05/C06),
   `path_to_bp` walks `parent` links counting preceding siblings / finding the member's key.
 -/
-import SuccinctlyVerif.Generated.C28
 namespace SV.JsonLocate
 
 abbrev Byte := BitVec 8
 abbrev Bytes := List Byte
 
-/-! ### Unicode classes (Rust core tables) -/
-
-/-- membership in a flattened list of inclusive ranges `[lo₀, hi₀, lo₁, hi₁, …]` -/
-def inRanges : List Int → Nat → Bool
-  | lo :: hi :: rest, cp => (decide (lo ≤ (cp : Int)) && decide ((cp : Int) ≤ hi)) || inRanges rest cp
-  | _, _ => false
-
-/-- `char::is_alphabetic` -/
-def isAlphabetic (c : Char) : Bool := inRanges Gen.UNICODE_ALPHABETIC_RANGES_L c.toNat
-/-- `char::is_numeric` -/
-def isNumeric (c : Char) : Bool := inRanges Gen.UNICODE_NUMERIC_RANGES_L c.toNat
-/-- `char::is_alphanumeric` -/
-def isAlphanumeric (c : Char) : Bool := isAlphabetic c || isNumeric c
-
 /-! ### rendering -/
 
-/-- `can_use_dot_notation` -/
+/-- the `RESERVED` list of `can_use_dot_notation` -/
+def reservedWords : List (List Char) :=
+  ["and", "as", "catch", "def", "elif", "else", "end", "foreach", "if", "import", "include",
+   "label", "or", "reduce", "then", "try", "__loc__"].map String.toList
+
+/-- `can_use_dot_notation`: an ASCII jq identifier (`char::is_ascii_alphabetic` = `Char.isAlpha`,
+`is_ascii_alphanumeric` = `Char.isAlphanum`) that is not a reserved word -/
 def canUseDotNotation (key : List Char) : Bool :=
   match key with
   | [] => false
   | first :: rest =>
-    if !isAlphabetic first && first != '_' then false
-    else rest.all fun c => isAlphanumeric c || c == '_'
+    if !(first.isAlpha || first == '_') then false
+    else (rest.all fun c => c.isAlphanum || c == '_') && !reservedWords.contains key
 
 /-- `escape_jq_string` -/
 def escapeJqString (s : List Char) : List Char :=
